@@ -23,61 +23,310 @@ package s3bolt
 //@ ensures [C10]     meta:   ret0 != nil && imp(len(opts) == 0, str(ret0.metaBucketName) == "_meta")
 
 //@ func (*Backend).metaBucket
+//@ props C10 C02 C09
+//@ requires          args:   db != nil && tx != nil
 //@ unproved pre:*notmeta* this is the one place that is meant to open the bookkeeping bucket
-//@ modifies nothing
+//@ ensures            plain:  imp(ret1 != nil, errcode(ret1) == "" && io_fails > old(io_fails)) && imp(ret1 == nil, io_fails == old(io_fails))
+//@ modifies io_fails
 
-// helpers that only talk to the bolt file (bson encoding + Bucket.Put/Get/Delete): trusted to leave Go state alone
+// helpers that only talk to the bookkeeping bucket (bson encoding + Bucket.Put/Get/Delete on "_meta"): trusted to
+// leave Go state and every other bucket alone and to fail only with plain errors; the content of the bookkeeping
+// bucket itself is not modelled (clauses about "other buckets" below exclude it)
 //@ func (*metaBucket).createS3Bucket
 //@ nobody
-//@ modifies nothing
+//@ ensures            plain:  imp(ret0 != nil, errcode(ret0) == "" && io_fails > old(io_fails)) && imp(ret0 == nil, io_fails == old(io_fails))
+//@ modifies io_fails
 //@ func (*metaBucket).deleteS3Bucket
 //@ nobody
-//@ modifies nothing
+//@ ensures            plain:  imp(ret0 != nil, errcode(ret0) == "" && io_fails > old(io_fails)) && imp(ret0 == nil, io_fails == old(io_fails))
+//@ modifies io_fails
 //@ func (*metaBucket).s3Bucket
 //@ nobody
+//@ ensures            plain:  imp(ret1 != nil, errcode(ret1) == "" && io_fails > old(io_fails)) && imp(ret1 == nil, io_fails == old(io_fails))
+//@ modifies io_fails
+
+// ---- the stored form of an object -------------------------------------------------------
+//
+// What a stored value decodes to, as uninterpreted functions of the value (the slice handed to
+// Bucket.Put and handed back by Bucket.Get): the fields of the boltObject that was marshalled.
+// bson.Marshal / bson.Unmarshal are assumed to be inverse on boltObject in exactly this sense.
+//@ uf bsName([]byte) string
+//@ uf bsSize([]byte) int64
+//@ uf bsMeta([]byte) map[string]string
+//@ uf bsLen([]byte) int
+//@ uf bsByte([]byte, int) byte
+//@ uf bsHLen([]byte) int
+//@ uf bsHByte([]byte, int) byte
+
+//@ pred encOf(v, x) = bsName(v) == x.Name && bsSize(v) == x.Size && bsMeta(v) == x.Metadata &&
+//@     bsLen(v) == len(x.Contents) && all(i, 0, len(x.Contents), bsByte(v, i) == x.Contents[i]) &&
+//@     bsHLen(v) == len(x.Hash) && all(i, 0, len(x.Hash), bsHByte(v, i) == x.Hash[i])
+
+// every stored object's recorded size is the length of its body (established by PutObject,
+// the only writer of object values; assumed of the file at method entry)
+//@ pred boltInv() = allstr(bn, allstr(k, imp(bk_has(bn, k), bsSize(bk_val(bn, k)) == bsLen(bk_val(bn, k)))))
+
+//@ lib bson.Marshal
+//@ let X = dyn(in, *s3bolt.boltObject)
+//@ ensures            enc:    imp(ret1 == nil && typeis(in, *s3bolt.boltObject), ret0 != nil &&
+//@                              bsName(ret0) == X.Name && bsSize(ret0) == X.Size && bsMeta(ret0) == X.Metadata &&
+//@                              bsLen(ret0) == len(X.Contents) && all(i, 0, len(X.Contents), bsByte(ret0, i) == X.Contents[i]) &&
+//@                              bsHLen(ret0) == len(X.Hash) && all(i, 0, len(X.Hash), bsHByte(ret0, i) == X.Hash[i]))
+//@ ensures            err:    imp(ret1 != nil, errcode(ret1) == "")
 //@ modifies nothing
 
+//@ lib bson.Unmarshal
+//@ let X = dyn(out, *s3bolt.boltObject)
+//@ ensures            dec:    imp(ret0 == nil && typeis(out, *s3bolt.boltObject),
+//@                              bsName(in) == X.Name && bsSize(in) == X.Size && bsMeta(in) == X.Metadata &&
+//@                              bsLen(in) == len(X.Contents) && all(i, 0, len(X.Contents), bsByte(in, i) == X.Contents[i]) &&
+//@                              bsHLen(in) == len(X.Hash) && all(i, 0, len(X.Hash), bsHByte(in, i) == X.Hash[i]) &&
+//@                              allocated(X.Contents) && allocated(X.Hash))
+//@ ensures            err:    imp(ret0 != nil, errcode(ret0) == "")
+//@ modifies dyn(out, *s3bolt.boltObject).Name, dyn(out, *s3bolt.boltObject).Metadata, dyn(out, *s3bolt.boltObject).LastModified, dyn(out, *s3bolt.boltObject).Size, dyn(out, *s3bolt.boltObject).Contents, dyn(out, *s3bolt.boltObject).Hash
+
+// C11/C01: the object handed out for a stored boltObject (same shape as s3mem's toObject)
+//@ func (*boltObject).Object
+//@ props C01 C11 C09
+//@ requires           wf:     b != nil && b.Size == len(b.Contents) && allocated(b.Contents)
+//@ requires [C11]     req:    gofakes3.wfRangeReq(rangeRequest)
+//@ ensures [C11]      badrange: imp(ret1 != nil, ret0 == nil && errcode(ret1) == gofakes3.ErrInvalidRange && rangeRequest != nil)
+//@ ensures [C11]      bad:    imp(rangeRequest != nil && !gofakes3.specRangeOK(rangeRequest.FromEnd, rangeRequest.Start, rangeRequest.End, b.Size), ret1 != nil)
+//@ ensures [C01]      fields: imp(ret1 == nil, ret0 != nil && ret0.Name == objectName && ret0.Size == b.Size && ret0.Hash == b.Hash &&
+//@                              ret0.Metadata == b.Metadata && ret0.Contents != nil && ret0.VersionID == "" && !ret0.IsDeleteMarker)
+//@ ensures [C11]      range:  imp(ret1 == nil && rangeRequest != nil, ret0.Range != nil &&
+//@                              ret0.Range.Start == gofakes3.specRangeStart(rangeRequest.FromEnd, rangeRequest.Start, rangeRequest.End, b.Size) &&
+//@                              ret0.Range.Length == gofakes3.specRangeLen(rangeRequest.FromEnd, rangeRequest.Start, rangeRequest.End, b.Size))
+//@ ensures [C11]      whole:  imp(ret1 == nil && rangeRequest == nil, ret0.Range == nil)
+//@ ensures [C11]      inside: imp(ret1 == nil && ret0.Range != nil, 0 <= ret0.Range.Start && 1 <= ret0.Range.Length &&
+//@                              ret0.Range.Start + ret0.Range.Length <= b.Size)
+//@ let SRC = br_src(dyn(dyn(ret0.Contents, s3io.ReaderWithDummyCloser).Reader, *bytes.Reader))
+//@ ensures [C01,C11]  contents: imp(ret1 == nil, typeis(ret0.Contents, s3io.ReaderWithDummyCloser) &&
+//@                              typeis(dyn(ret0.Contents, s3io.ReaderWithDummyCloser).Reader, *bytes.Reader) &&
+//@                              sllen(SRC) == ite(ret0.Range == nil, len(b.Contents), ret0.Range.Length) &&
+//@                              all(i, 0, sllen(SRC), slbyte(SRC, i) == b.Contents[ite(ret0.Range == nil, 0, ret0.Range.Start) + i]))
+//@ ensures            fresh:  imp(ret0 != nil, fresh(ret0))
+//@ modifies br_src
+
 //@ func (*Backend).BucketExists
+//@ props C02 C10 C09
 //@ requires [C10]    inv:    bdb(db)
+//@ ensures [C02,C10] def:    imp(err == nil, exists == (name != "_meta" && bb_exists(name)))
+//@ ensures [C02]     same:   bb_exists == old(bb_exists) && bk_has == old(bk_has) && bk_val == old(bk_val)
 //@ func (*Backend).BucketExists$1
+//@ props C02 C10 C09
 //@ requires [C10]    notmeta: *name != "_meta"
+//@ requires          args:   tx != nil && name != nil && exists != nil
+//@ ensures [C02]     def:    ret0 == nil && *exists == bb_exists(*name)
+//@ modifies *exists
 
+// C03/C04: the listing walks the bucket's cursor; every key the prefix matches becomes exactly one entry
+// (an object entry carrying that key, or its common prefix), every other key none. That the cursor yields
+// every key once, in order, is bolt's contract and not modelled; pages are refused (the caller falls back).
 //@ func (*Backend).ListBucket
+//@ props C03 C04 C02 C10 C09
 //@ requires [C10]    inv:    bdb(db)
+//@ ensures [C04]     nopage: imp(page.HasMarker || page.Marker != "" || page.MaxKeys != 0, ret0 == nil && ret1 != nil)
+//@ ensures [C02,C10] nobucket: imp(!(page.HasMarker || page.Marker != "" || page.MaxKeys != 0) && (name == "_meta" || !bb_exists(name)),
+//@                             errcode(ret1) == gofakes3.ErrNoSuchBucket)
+//@ ensures [C03]     whole:  imp(ret1 == nil, ret0 != nil && !ret0.IsTruncated && ret0.NextMarker == "")
+//@ ensures [C02,C10] same:   bb_exists == old(bb_exists) && bk_has == old(bk_has) && bk_val == old(bk_val)
 //@ func (*Backend).ListBucket$1
+//@ props C03 C02 C10 C09
+//@ let O = *objects
+//@ pred olInv(o) = o != nil && imp(o.prefixes == nil, len(o.CommonPrefixes) == 0) &&
+//@     imp(o.prefixes != nil, allstr(s, iff(has(o.prefixes, s) && o.prefixes[s], ex(i, 0, len(o.CommonPrefixes), o.CommonPrefixes[i].Prefix == s))))
 //@ requires [C10]    notmeta: *name != "_meta"
+//@ requires          args:   tx != nil && name != nil && prefix != nil && *prefix != nil && objects != nil && olInv(O)
+//@ loop 1 invariant  shape:  olInv(O) && O == old(O) && *prefix == old(*prefix) && !O.IsTruncated == !old(O.IsTruncated) && O.NextMarker == old(O.NextMarker)
+//@ loop 1 backstep [C03] entry: ite(!gofakes3.mOK(**prefix, key),
+//@                             len(O.Contents) == old(len(O.Contents)) && len(O.CommonPrefixes) == old(len(O.CommonPrefixes)),
+//@                             ite(gofakes3.mCommon(**prefix, key),
+//@                               len(O.Contents) == old(len(O.Contents)) &&
+//@                                 ex(i, 0, len(O.CommonPrefixes), O.CommonPrefixes[i].Prefix == gofakes3.mPart(**prefix, key)),
+//@                               len(O.CommonPrefixes) == old(len(O.CommonPrefixes)) &&
+//@                                 len(O.Contents) == old(len(O.Contents)) + 1 &&
+//@                                 O.Contents[len(O.Contents) - 1] != nil && O.Contents[len(O.Contents) - 1].Key == key))
+//@ ensures [C02]     nobucket: imp(!bb_exists(*name), errcode(ret0) == gofakes3.ErrNoSuchBucket)
+//@ ensures [C03]     keep:   O == old(O) && O.IsTruncated == old(O.IsTruncated) && O.NextMarker == old(O.NextMarker) &&
+//@                             *name == old(*name) && *prefix == old(*prefix)
+//@ modifies goheap
 
+// C02/C17: bucket creation and removal against the file's state; a failed call changes nothing
 //@ func (*Backend).CreateBucket
-//@ requires [C10]    inv:    bdb(db)
+//@ props C02 C10 C09
+//@ requires [C10]    inv:    bdb(db) && db.timeSource != nil
+//@ ensures [C02]     dup:    imp(name != "_meta" && old(bb_exists(name)), ret0 != nil && imp(io_fails == old(io_fails), errcode(ret0) == gofakes3.ErrBucketAlreadyExists))
+//@ ensures [C10]     meta:   imp(name == "_meta", errcode(ret0) == gofakes3.ErrInvalidBucketName)
+//@ ensures [C02]     made:   imp(ret0 == nil, !old(bb_exists(name)) && bb_exists(name) && allstr(k, !bk_has(name, k)))
+//@ ensures [C02,C10] others: imp(ret0 == nil, allstr(bn, imp(bn != name && bn != "_meta", bb_exists(bn) == old(bb_exists(bn)) && bk_has(bn) == old(bk_has(bn)))) && bk_val == old(bk_val))
+//@ ensures [C02,C08] reject: imp(ret0 != nil, bb_exists == old(bb_exists) && bk_has == old(bk_has) && bk_val == old(bk_val))
 //@ func (*Backend).CreateBucket$1
+//@ props C02 C10 C09
 //@ requires [C10]    notmeta: *name != "_meta"
+//@ requires          args:   tx != nil && name != nil && db != nil && *db != nil && bdb(*db) && (*db).timeSource != nil
+//@ ensures [C02]     dup:    imp(old(bb_exists(*name)), ret0 != nil && imp(io_fails == old(io_fails), errcode(ret0) == gofakes3.ErrBucketAlreadyExists))
+//@ ensures [C02]     made:   imp(ret0 == nil, !old(bb_exists(*name)) && bb_exists(*name) && allstr(k, !bk_has(*name, k)))
+//@ ensures [C02,C10] others: allstr(bn, imp(bn != *name && bn != "_meta", bb_exists(bn) == old(bb_exists(bn)) && bk_has(bn) == old(bk_has(bn)))) && bk_val == old(bk_val)
+//@ modifies bb_exists(*name), bk_has(*name), io_fails
 
 //@ func (*Backend).DeleteBucket
+//@ props C02 C10 C09
 //@ requires [C10]    inv:    bdb(db)
+//@ ensures [C10]     meta:   imp(name == "_meta", errcode(ret0) == gofakes3.ErrInvalidBucketName)
+//@ ensures [C02]     nobucket: imp(name != "_meta" && !old(bb_exists(name)), errcode(ret0) == gofakes3.ErrNoSuchBucket)
+//@ ensures [C02]     nonempty: imp(name != "_meta" && old(bb_exists(name)) && !allstr(k, !old(bk_has(name, k))), errcode(ret0) == gofakes3.ErrBucketNotEmpty)
+//@ ensures [C02]     gone:   imp(ret0 == nil, old(bb_exists(name)) && !bb_exists(name) && allstr(k, !old(bk_has(name, k))))
+//@ ensures [C02,C10] others: imp(ret0 == nil, allstr(bn, imp(bn != name && bn != "_meta", bb_exists(bn) == old(bb_exists(bn)) && bk_has(bn) == old(bk_has(bn)))) && bk_val == old(bk_val))
+//@ ensures [C02,C08] reject: imp(ret0 != nil, bb_exists == old(bb_exists) && bk_has == old(bk_has) && bk_val == old(bk_val))
 //@ func (*Backend).DeleteBucket$1
+//@ props C02 C10 C09
 //@ requires [C10]    notmeta: str(*nameBts) != "_meta"
+//@ requires          args:   tx != nil && nameBts != nil && name != nil && db != nil && *db != nil && bdb(*db) && *name == str(*nameBts)
+//@ ensures [C02]     nobucket: imp(!old(bb_exists(*name)), errcode(ret0) == gofakes3.ErrNoSuchBucket)
+//@ ensures [C02]     nonempty: imp(old(bb_exists(*name)) && !allstr(k, !old(bk_has(*name, k))), errcode(ret0) == gofakes3.ErrBucketNotEmpty)
+//@ ensures [C02]     gone:   imp(ret0 == nil, old(bb_exists(*name)) && !bb_exists(*name) && allstr(k, !old(bk_has(*name, k))))
+//@ ensures [C02,C10] others: allstr(bn, imp(bn != *name && bn != "_meta", bb_exists(bn) == old(bb_exists(bn)) && bk_has(bn) == old(bk_has(bn)))) && bk_val == old(bk_val)
+//@ modifies bb_exists(*name), bk_has(*name), io_fails
 
 //@ func (*Backend).ForceDeleteBucket
+//@ props C02 C10 C09
 //@ requires [C10]    inv:    bdb(db)
+//@ ensures [C10]     meta:   imp(name == "_meta", errcode(ret0) == gofakes3.ErrInvalidBucketName)
+//@ ensures [C02]     nobucket: imp(name != "_meta" && !old(bb_exists(name)), errcode(ret0) == gofakes3.ErrNoSuchBucket)
+//@ ensures [C02]     gone:   imp(ret0 == nil, old(bb_exists(name)) && !bb_exists(name))
+//@ ensures [C02,C10] others: imp(ret0 == nil, allstr(bn, imp(bn != name && bn != "_meta", bb_exists(bn) == old(bb_exists(bn)) && bk_has(bn) == old(bk_has(bn)))) && bk_val == old(bk_val))
+//@ ensures [C02,C08] reject: imp(ret0 != nil, bb_exists == old(bb_exists) && bk_has == old(bk_has) && bk_val == old(bk_val))
 //@ func (*Backend).ForceDeleteBucket$1
+//@ props C02 C10 C09
 //@ requires [C10]    notmeta: str(*nameBts) != "_meta"
+//@ requires          args:   tx != nil && nameBts != nil && name != nil && db != nil && *db != nil && bdb(*db) && *name == str(*nameBts)
+//@ loop 1 invariant  shape:  b != nil && bk_name(b) == *name && cur_bucket(c) == *name && *name == old(*name) && *nameBts == old(*nameBts) &&
+//@                             allstr(bn, imp(bn != *name, bk_has(bn) == old(bk_has(bn)))) && bb_exists == old(bb_exists) && bk_val == old(bk_val)
+//@ ensures [C02]     nobucket: imp(!old(bb_exists(*name)), errcode(ret0) == gofakes3.ErrNoSuchBucket)
+//@ ensures [C02]     gone:   imp(ret0 == nil, old(bb_exists(*name)) && !bb_exists(*name))
+//@ ensures [C02,C10] others: allstr(bn, imp(bn != *name && bn != "_meta", bb_exists(bn) == old(bb_exists(bn)) && bk_has(bn) == old(bk_has(bn)))) && bk_val == old(bk_val)
+//@ modifies bb_exists(*name), bk_has(*name), io_fails
 
+// C01/C02/C11: what a read answers, in terms of the file's state
 //@ func (*Backend).GetObject
+//@ props C01 C02 C11 C10 C09
+//@ let V = bk_val(bucketName, objectName)
 //@ requires [C10]    inv:    bdb(db)
+//@ requires          file:   boltInv()
+//@ requires [C11]    req:    gofakes3.wfRangeReq(rangeRequest)
+//@ ensures [C02,C10] nobucket: imp(bucketName == "_meta" || !bb_exists(bucketName), errcode(ret1) == gofakes3.ErrNoSuchBucket)
+//@ ensures [C02]     nokey:  imp(bucketName != "_meta" && bb_exists(bucketName) && !bk_has(bucketName, objectName), errcode(ret1) == gofakes3.ErrNoSuchKey)
+//@ ensures [C02]     found:  imp(ret1 == nil, bucketName != "_meta" && bb_exists(bucketName) && bk_has(bucketName, objectName))
+//@ ensures [C01]     fields: imp(ret1 == nil, ret0 != nil && ret0.Name == objectName && ret0.Size == bsSize(V) && ret0.Metadata == bsMeta(V) &&
+//@                             len(ret0.Hash) == bsHLen(V) && all(i, 0, bsHLen(V), ret0.Hash[i] == bsHByte(V, i)) && ret0.Contents != nil)
+//@ ensures [C11]     badrange: imp(bucketName != "_meta" && bb_exists(bucketName) && bk_has(bucketName, objectName) && rangeRequest != nil &&
+//@                             !gofakes3.specRangeOK(rangeRequest.FromEnd, rangeRequest.Start, rangeRequest.End, bsSize(V)), ret1 != nil)
+//@ ensures [C11]     range:  imp(ret1 == nil && rangeRequest != nil, ret0.Range != nil &&
+//@                             ret0.Range.Start == gofakes3.specRangeStart(rangeRequest.FromEnd, rangeRequest.Start, rangeRequest.End, bsSize(V)) &&
+//@                             ret0.Range.Length == gofakes3.specRangeLen(rangeRequest.FromEnd, rangeRequest.Start, rangeRequest.End, bsSize(V)))
+//@ ensures [C11]     whole:  imp(ret1 == nil && rangeRequest == nil, ret0.Range == nil)
+//@ let SRC = br_src(dyn(dyn(ret0.Contents, s3io.ReaderWithDummyCloser).Reader, *bytes.Reader))
+//@ ensures [C01,C11] reader: imp(ret1 == nil, typeis(ret0.Contents, s3io.ReaderWithDummyCloser) &&
+//@                             typeis(dyn(ret0.Contents, s3io.ReaderWithDummyCloser).Reader, *bytes.Reader))
+//@ ensures [C01]     all:    imp(ret1 == nil && rangeRequest == nil, sllen(SRC) == bsLen(V) &&
+//@                             all(i, 0, bsLen(V), slbyte(SRC, i) == bsByte(V, i)))
+//@ ensures [C11]     part:   imp(ret1 == nil && rangeRequest != nil, sllen(SRC) == ret0.Range.Length &&
+//@                             all(i, 0, ret0.Range.Length, slbyte(SRC, i) == bsByte(V, ret0.Range.Start + i)))
+//@ ensures [C02,C10] same:   bb_exists == old(bb_exists) && bk_has == old(bk_has) && bk_val == old(bk_val)
+
 //@ func (*Backend).GetObject$1
+//@ props C01 C02 C10 C09
 //@ requires [C10]    notmeta: *bucketName != "_meta"
+//@ requires          args:   tx != nil && bucketName != nil && objectName != nil && t != nil
+//@ ensures [C02]     nobucket: imp(!bb_exists(*bucketName), errcode(ret0) == gofakes3.ErrNoSuchBucket)
+//@ ensures [C02]     nokey:  imp(bb_exists(*bucketName) && !bk_has(*bucketName, *objectName), errcode(ret0) == gofakes3.ErrNoSuchKey)
+//@ ensures [C01]     found:  imp(ret0 == nil, bb_exists(*bucketName) && bk_has(*bucketName, *objectName) &&
+//@                             encOf(bk_val(*bucketName, *objectName), t) && allocated(t.Contents) && allocated(t.Hash))
+//@ modifies t.Name, t.Metadata, t.LastModified, t.Size, t.Contents, t.Hash
 
+//@ func (*Backend).HeadObject
+//@ props C01 C02 C10 C09
+//@ let V = bk_val(bucketName, objectName)
+//@ requires [C10]    inv:    bdb(db)
+//@ requires          file:   boltInv()
+//@ ensures [C02,C10] nobucket: imp(bucketName == "_meta" || !bb_exists(bucketName), errcode(ret1) == gofakes3.ErrNoSuchBucket)
+//@ ensures [C02]     nokey:  imp(bucketName != "_meta" && bb_exists(bucketName) && !bk_has(bucketName, objectName), errcode(ret1) == gofakes3.ErrNoSuchKey)
+//@ ensures [C01]     fields: imp(ret1 == nil, ret0 != nil && ret0.Name == objectName && ret0.Size == bsSize(V) && ret0.Metadata == bsMeta(V) &&
+//@                             len(ret0.Hash) == bsHLen(V) && all(i, 0, bsHLen(V), ret0.Hash[i] == bsHByte(V, i)) && ret0.Range == nil)
+//@ ensures [C01]     nobody: imp(ret1 == nil, typeis(ret0.Contents, s3io.NoOpReadCloser))
+//@ ensures [C02,C10] same:   bb_exists == old(bb_exists) && bk_has == old(bk_has) && bk_val == old(bk_val)
+
+// C01/C08/C02: an upload either stores exactly the bytes read, under exactly the addressed key,
+// or leaves the file as it was
 //@ func (*Backend).PutObject
-//@ requires [C10]    inv:    bdb(db)
-//@ func (*Backend).PutObject$1
-//@ requires [C10]    notmeta: *bucketName != "_meta"
+//@ props C01 C02 C08 C12 C10 C09
+//@ let V = bk_val(bucketName, objectName)
+//@ requires [C10]    inv:    bdb(db) && db.timeSource != nil
+//@ requires          file:   boltInv()
+//@ requires [C08,C12] size:  size >= 0 && input != nil && meta != nil
+//@ ensures [C08]     reject: imp(err != nil, bb_exists == old(bb_exists) && bk_has == old(bk_has) && bk_val == old(bk_val))
+//@ ensures [C08,C12] short:  imp(rd_len(input) - old(rd_pos(input)) != size, err != nil)
+//@ ensures [C02,C10] nobucket: imp(bucketName == "_meta" || !old(bb_exists(bucketName)), err != nil)
+//@ ensures [C01,C02] stored: imp(err == nil, bk_has(bucketName, objectName) && bsName(V) == objectName && bsSize(V) == size &&
+//@                             bsLen(V) == size && bsMeta(V) == meta && bsHLen(V) == 16)
+//@ ensures [C01]     body:   imp(err == nil, all(i, 0, size, bsByte(V, i) == rd_data(input)[old(rd_pos(input)) + i]))
+//@ ensures [C02,C10] others: imp(err == nil, bb_exists == old(bb_exists) &&
+//@                             allstr(bn, allstr(k, imp(bn != bucketName || k != objectName,
+//@                               bk_has(bn, k) == old(bk_has(bn, k)) && bk_val(bn, k) == old(bk_val(bn, k))))))
+//@ ensures           file:   boltInv()
 
-//@ func (*Backend).DeleteObject
-//@ requires [C10]    inv:    bdb(db)
-//@ func (*Backend).DeleteObject$1
+//@ func (*Backend).PutObject$1
+//@ props C01 C02 C10 C09
+//@ let V = bk_val(*bucketName, *objectName)
 //@ requires [C10]    notmeta: *bucketName != "_meta"
+//@ requires          args:   tx != nil && bucketName != nil && objectName != nil && meta != nil && bts != nil && mod != nil && hash != nil
+//@ ensures [C02]     nobucket: imp(!old(bb_exists(*bucketName)), ret0 != nil)
+//@ ensures [C01,C02] stored: imp(ret0 == nil, bk_has(*bucketName, *objectName) && bsName(V) == *objectName && bsSize(V) == len(*bts) &&
+//@                             bsLen(V) == len(*bts) && bsMeta(V) == *meta && bsHLen(V) == 16)
+//@ ensures [C01]     body:   imp(ret0 == nil, all(i, 0, len(*bts), bsByte(V, i) == (*bts)[i]))
+//@ ensures [C01]     hash:   imp(ret0 == nil, all(i, 0, 16, bsHByte(V, i) == arrslice(hash)[i]))
+//@ ensures [C02,C10] others: imp(ret0 == nil, bb_exists == old(bb_exists) &&
+//@                             allstr(bn, allstr(k, imp(bn != *bucketName || k != *objectName,
+//@                               bk_has(bn, k) == old(bk_has(bn, k)) && bk_val(bn, k) == old(bk_val(bn, k))))))
+//@ modifies bk_has(*bucketName), bk_val(*bucketName)
+
+// C02: deleting is idempotent, removes exactly the addressed key, and reports a missing bucket
+//@ func (*Backend).DeleteObject
+//@ props C02 C10 C09
+//@ requires [C10]    inv:    bdb(db)
+//@ ensures [C02,C10] nobucket: imp(bucketName == "_meta" || !old(bb_exists(bucketName)), errcode(rerr) == gofakes3.ErrNoSuchBucket)
+//@ ensures [C02]     gone:   imp(rerr == nil, bk_has(bucketName) == upd(old(bk_has(bucketName)), objectName, false))
+//@ ensures [C02,C10] others: allstr(bn, imp(bn != bucketName, bk_has(bn) == old(bk_has(bn)))) && bb_exists == old(bb_exists) && bk_val == old(bk_val)
+//@ ensures [C02]     reject: imp(rerr != nil, bk_has == old(bk_has))
+//@ func (*Backend).DeleteObject$1
+//@ props C02 C10 C09
+//@ requires [C10]    notmeta: *bucketName != "_meta"
+//@ requires          args:   tx != nil && bucketName != nil && objectName != nil
+//@ ensures [C02]     nobucket: imp(!old(bb_exists(*bucketName)), errcode(ret0) == gofakes3.ErrNoSuchBucket)
+//@ ensures [C02]     gone:   imp(ret0 == nil, bk_has(*bucketName) == upd(old(bk_has(*bucketName)), *objectName, false))
+//@ ensures [C02]     keep:   imp(ret0 != nil, bk_has(*bucketName) == old(bk_has(*bucketName)))
+//@ modifies bk_has(*bucketName)
 
 //@ func (*Backend).DeleteMulti
+//@ props C02 C10 C09
 //@ requires [C10]    inv:    bdb(db)
+//@ ensures [C02,C10] nobucket: imp(bucketName == "_meta" || !old(bb_exists(bucketName)), errcode(err) == gofakes3.ErrNoSuchBucket)
+//@ ensures [C02]     gone:   imp(err == nil && len(result.Error) == 0, all(j, 0, len(objects), !bk_has(bucketName, objects[j])))
+//@ ensures [C02]     kept:   imp(err == nil, allstr(k, imp(all(j, 0, len(objects), objects[j] != k), bk_has(bucketName, k) == old(bk_has(bucketName, k)))))
+//@ ensures [C02]     answer: imp(err == nil, len(result.Deleted) + len(result.Error) == len(objects))
+//@ ensures [C02,C10] others: allstr(bn, imp(bn != bucketName, bk_has(bn) == old(bk_has(bn)))) && bb_exists == old(bb_exists) && bk_val == old(bk_val)
 //@ func (*Backend).DeleteMulti$1
+//@ props C02 C10 C09
 //@ requires [C10]    notmeta: *bucketName != "_meta"
+//@ requires          args:   tx != nil && bucketName != nil && objects != nil && result != nil
+//@ loop 1 invariant  gone:   -1 <= rangeindex && rangeindex < len(*objects) && len(result.Error) >= old(len(result.Error)) &&
+//@                             imp(len(result.Error) == old(len(result.Error)), all(j, 0, rangeindex + 1, !bk_has(*bucketName, (*objects)[j])))
+//@ loop 1 invariant  kept:   allstr(k, imp(all(j, 0, len(*objects), (*objects)[j] != k), bk_has(*bucketName, k) == old(bk_has(*bucketName, k))))
+//@ loop 1 invariant  answer: len(result.Deleted) + len(result.Error) == old(len(result.Deleted) + len(result.Error)) + rangeindex + 1
+//@ ensures [C02]     nobucket: imp(!old(bb_exists(*bucketName)), errcode(ret0) == gofakes3.ErrNoSuchBucket)
+//@ ensures [C02]     ok:     imp(old(bb_exists(*bucketName)), ret0 == nil)
+//@ ensures [C02]     gone:   imp(ret0 == nil && len(result.Error) == old(len(result.Error)), all(j, 0, len(*objects), !bk_has(*bucketName, (*objects)[j])))
+//@ ensures [C02]     kept:   allstr(k, imp(all(j, 0, len(*objects), (*objects)[j] != k), bk_has(*bucketName, k) == old(bk_has(*bucketName, k))))
+//@ ensures [C02]     answer: imp(ret0 == nil, len(result.Deleted) + len(result.Error) == old(len(result.Deleted) + len(result.Error)) + len(*objects))
+//@ modifies bk_has(*bucketName), result.Deleted, result.Error
